@@ -230,6 +230,7 @@ class Hist:
         self.tr = Tracker(self.prog)
         self.copies = {}        # serial -> serial it was copied from
         self.members = {}       # serial -> serials of its class-typed data members
+        self.state_fps = set()  # fingerprints of (collector sizes, live classes, retained) after each step
         self.retained_on = False
         self.unloaded_since_call = False
 
@@ -1076,6 +1077,11 @@ class Hist:
         self.op_unload(objs)
 
     def finish_step(self, after):
+        st = self.s.last_state
+        if len(self.state_fps) < 64:
+            import zlib
+            self.state_fps.add(zlib.crc32(repr((sorted(st["coll"].items()), sorted(st["live"].values()),
+                                                len(self.tr.retained))).encode()))
         if self.unloaded and after not in ("unload",):
             self.pr("calls_after_unload")
         if self.check_ownership(after):
@@ -1110,6 +1116,7 @@ def run_one(batch, tape, ctx):
                       "library_entity_calls": h.entity_calls, "program_%02d" % k: 1},
             "faults": {"library-exception": nfault, "unload": h.probes.get("unload_clear_all", 0),
                        "ill-typed-call": h.probes.get("illformed_call_refused", 0)},
-            "probes": h.probes, "steps": len(h.s.gateway_calls),
+            "probes": h.probes, "steps": len(h.s.gateway_calls), "state_fps": sorted(h.state_fps),
+            "interleaving": hashlib.sha256(repr([x.split("(")[0] for x in h.steps]).encode()).hexdigest()[:16],
             "sample": {"program": k, "interface": info["interface"][:700], "steps": h.steps[:30]},
             "trace": (h.steps[-25:] + h.s.log[-30:]) if h.viol else None}
